@@ -8,6 +8,8 @@ assumed to do to metadata; the end-to-end half of the correspondence checks that
 -/
 import ConfModel.Lemmas.Echo
 import ConfModel.Lemmas.EchoLoad
+import ConfModel.Spec.EchoExplicit
+import ConfModel.Spec.EchoExpand
 namespace ConfModel.Props.C02
 open ConfModel.Echo
 
@@ -535,5 +537,290 @@ example : WellFormed exUnimpl = true ∧ populate exUnimpl = some ⟨[], [], [],
     populate { exUnimpl with explicit := none } = none ∧
     agree .unary ⟨[], [], [], some ⟨12, none, []⟩⟩ (actual exUnimpl (idWire exUnimpl) true) = true := by decide
 example : WellFormed ex1 = true ∧ ex1.explicit = none ∧ populate ex1 = some (expected ex1) := by decide
+
+/-! ## Explicit expectations: kept, never overwritten, never merged — and what they can switch on
+
+`populateX` is `populateExpectedResponse` on the full test case (`expected_response` with its
+`http_status_code`, `other_allowed_error_codes`); `agreeX` is the whole of `assert`. -/
+
+/-- the model of round 1 is the `result` component of the full one -/
+theorem populateX_result (x : XTC) : (populateX x).map (·.result) = populate x.tc := by
+  unfold populateX populate
+  cases x.tc.explicit with
+  | some e => rfl
+  | none =>
+    show Option.map _ (if derivable x.tc = true then _ else _) = (if derivable x.tc = true then _ else _)
+    cases derivable x.tc <;> rfl
+
+/-- **kept.** An expected response given by the suite is what the library stores, for every test
+case whatsoever (any stream type, method, well-formed or not): the result, its HTTP status and the
+other allowed codes exactly as written — nothing derived replaces or is merged into it. -/
+theorem populateX_explicit_kept (x : XTC) (e : Result) (h : x.tc.explicit = some e) :
+    populateX x = some ⟨e, x.status, x.otherCodes⟩ := by
+  unfold populateX; rw [h]
+
+/-- the derivation does not read what it does not keep: two test cases that differ only in request,
+definition, method, GET flag, codec … but give the same expectation store the same expectation -/
+theorem populateX_explicit_ignores_request (x y : XTC) (e : Result)
+    (hx : x.tc.explicit = some e) (hy : y.tc.explicit = some e)
+    (hs : x.status = y.status) (ho : x.otherCodes = y.otherCodes) : populateX x = populateX y := by
+  rw [populateX_explicit_kept x e hx, populateX_explicit_kept y e hy, hs, ho]
+
+/-- **derived.** Without a given expectation the stored one is exactly the derived result, never
+carries an HTTP status, and the other allowed codes of the test case stay beside it. -/
+theorem populateX_derived (x : XTC) (ex : Expectation) (h : x.tc.explicit = none)
+    (hp : populateX x = some ex) :
+    ex.result = expected x.tc ∧ ex.status = none ∧ ex.otherCodes = x.otherCodes := by
+  unfold populateX at hp; rw [h] at hp
+  by_cases hd : derivable x.tc = true
+  · rw [if_pos hd] at hp; cases hp; exact ⟨rfl, rfl, rfl⟩
+  · rw [if_neg hd] at hp; cases hp
+
+/-- the other allowed codes are never touched, whichever branch is taken -/
+theorem populateX_other_codes (x : XTC) (ex : Expectation) (hp : populateX x = some ex) :
+    ex.otherCodes = x.otherCodes := by
+  cases h : x.tc.explicit with
+  | some e => rw [populateX_explicit_kept x e h] at hp; cases hp; rfl
+  | none => exact (populateX_derived x ex h hp).2.2
+
+/-- **rejected** exactly when nothing is given and nothing can be derived (status and other codes
+do not count as an expectation) -/
+theorem populateX_rejects_iff (x : XTC) :
+    populateX x = none ↔ x.tc.explicit = none ∧ x.tc.method = .unimplemented ∧ x.tc.reqs ≠ [] := by
+  rw [← populate_rejects_iff, ← populateX_result]
+  cases populateX x <;> simp
+
+/-- `agreeX` extends `agree`: without other codes and without a status it is the comparison the
+round-1 theorems speak about -/
+theorem agreeX_conservative (st : ST) (e a : Result) (s : Option Nat) :
+    agreeX st ⟨e, none, []⟩ a s = agree st e a := by
+  have herr : errAgreeX [] e.err a.err = errAgree e.err a.err := by
+    unfold errAgreeX errAgree
+    cases e.err <;> cases a.err <;> simp [codeAgree, msgAgree]
+    rename_i e' a'
+    cases e'.msg <;> rfl
+  unfold agreeX agree
+  rw [herr]
+  simp [restAgree, statusAgree, Bool.and_assoc]
+
+/-- other allowed codes only ever loosen, and an expectation without a status is indifferent to the
+status the client reports -/
+theorem agreeX_of_agree (st : ST) (e a : Result) (other : List Nat) (s : Option Nat)
+    (h : agree st e a = true) : agreeX st ⟨e, none, other⟩ a s = true := by
+  rw [← agreeX_conservative st e a s] at h
+  unfold agreeX at h ⊢
+  simp only [Bool.and_eq_true] at h ⊢
+  refine ⟨⟨?_, h.1.2⟩, by simp [statusAgree]⟩
+  have h1 := h.1.1
+  unfold errAgreeX at h1 ⊢
+  cases he : e.err <;> cases ha : a.err <;> simp only [he, ha] at h1 ⊢
+  · cases h1
+  · cases h1
+  · simp only [Bool.and_eq_true, codeAgree, Bool.or_eq_true] at h1 ⊢
+    exact ⟨⟨Or.inl (by simpa using h1.1.1), h1.1.2⟩, h1.2⟩
+
+/-- **headline, full test case.** What the library stores for a well-formed case without a given
+expectation agrees with the reference peers under the whole of `assert` — whatever other allowed
+codes the case lists and whatever HTTP status the client reports. -/
+theorem populatedX_agrees_partial (x : XTC) (w : Wire) (m : Bool) (ex : Expectation) (s : Option Nat)
+    (hwf : WellFormed x.tc = true) (hw : WireLaw x.tc w = true) (hd : DetailsOpaque x.tc = true)
+    (hf : isF07 x.tc = false) (hex : x.tc.explicit = none) (hp : populateX x = some ex) :
+    agreeX x.tc.st ex (actual x.tc w m) s = true := by
+  obtain ⟨hr, hs, _⟩ := populateX_derived x ex hex hp
+  have hpop : populate x.tc = some ex.result := by
+    rw [← populateX_result, hp]; rfl
+  have := populated_agrees_partial x.tc w m ex.result hwf hw hd hf hex hpop
+  have h2 := agreeX_of_agree x.tc.st ex.result (actual x.tc w m) ex.otherCodes s this
+  cases ex with
+  | mk r st' oc => cases hs; exact h2
+
+/-- an explicit expectation that restates what would be derived (e.g. an error definition with
+details: the given details followed by the request info) passes against the reference peers,
+provided its HTTP status — if it names one — is the one the client reports (or the client reports none) -/
+theorem explicit_restating_derived_agrees (x : XTC) (w : Wire) (m : Bool) (s : Option Nat)
+    (hwf : WellFormed x.tc = true) (hw : WireLaw x.tc w = true) (hd : DetailsOpaque x.tc = true)
+    (hf : isF07 x.tc = false) (hm : x.tc.method ≠ .unimplemented)
+    (hex : x.tc.explicit = some (expected x.tc)) (hs : statusAgree x.status s = true) :
+    ∃ ex, populateX x = some ex ∧ agreeX x.tc.st ex (actual x.tc w m) s = true := by
+  refine ⟨_, populateX_explicit_kept x _ hex, ?_⟩
+  have h := agreeX_of_agree x.tc.st (expected x.tc) (actual x.tc w m) x.otherCodes s
+    (expected_agrees_partial x.tc w m hwf hw hd hf hm)
+  unfold agreeX at h ⊢
+  simp only [Bool.and_eq_true] at h ⊢
+  exact ⟨h.1, hs⟩
+
+/-- **status is sharp**: an expectation naming a status fails against a result reporting another one,
+whatever else agrees -/
+theorem status_sharp (st : ST) (ex : Expectation) (a : Result) (s s' : Nat)
+    (h : ex.status = some s) (hne : s ≠ s') : agreeX st ex a (some s') = false := by
+  unfold agreeX; rw [h]
+  simp [statusAgree, hne]
+
+/-- … and is compared only when both sides carry one -/
+theorem status_lenient (st : ST) (ex : Expectation) (a : Result) (s : Option Nat)
+    (h : ex.status = none ∨ s = none) :
+    agreeX st ex a s = agreeX st ⟨ex.result, none, ex.otherCodes⟩ a none := by
+  unfold agreeX
+  rcases h with h | h
+  · rw [h]; simp [statusAgree]
+  · rw [h]; cases ex.status <;> simp [statusAgree]
+
+/-- **other allowed codes, exactly**: with both errors present the code clause holds iff the actual
+code is the expected one or one of the others; message and details are compared as always -/
+theorem other_codes_iff (other : List Nat) (e a : Err) :
+    errAgreeX other (some e) (some a) = true ↔
+      (a.code = e.code ∨ a.code ∈ other) ∧ msgAgree e.msg a.msg = true ∧ detailsAgree e.details a.details = true := by
+  unfold errAgreeX
+  simp only [Bool.and_eq_true, codeAgree, Bool.or_eq_true, beq_iff_eq, List.contains_iff_mem, and_assoc]
+  constructor
+  · rintro ⟨h | h, h2, h3⟩
+    · exact ⟨Or.inl h.symm, h2, h3⟩
+    · exact ⟨Or.inr h, h2, h3⟩
+  · rintro ⟨h | h, h2, h3⟩
+    · exact ⟨Or.inl h.symm, h2, h3⟩
+    · exact ⟨Or.inr h, h2, h3⟩
+
+/-- other allowed codes are no blank cheque: they never excuse an error where none is expected, nor
+a missing error -/
+theorem other_codes_need_both (other : List Nat) (e : Err) :
+    errAgreeX other none (some e) = false ∧ errAgreeX other (some e) none = false := ⟨rfl, rfl⟩
+
+/-! Non-vacuity of the explicit-expectation theorems. -/
+private def exErrDet : TC :=
+  { st := .unary, reqHdrs := [⟨"X-A", ["1"]⟩], reqs := [4], fdFlag := false, sdef := none,
+    get := false, codec := .proto, method := .std, explicit := none,
+    udef := some ⟨[⟨"H", ["1"]⟩], [⟨"T", ["2"]⟩], .error ⟨9, some "m", [.other 3, .other 5]⟩⟩ }
+private def xErrDet : XTC := ⟨{ exErrDet with explicit := some (expected exErrDet) }, some 400, [2, 13]⟩
+-- the restating expectation lists the given details and then the request info
+example : (expected exErrDet).err = some ⟨9, some "m", [.other 3, .other 5, .info ⟨[⟨"X-A", ["1"]⟩], [4], []⟩]⟩ := by decide
+example : WellFormed xErrDet.tc = true ∧ WireLaw xErrDet.tc (idWire xErrDet.tc) = true ∧ DetailsOpaque xErrDet.tc = true ∧
+    isF07 xErrDet.tc = false ∧ xErrDet.tc.explicit = some (expected xErrDet.tc) ∧ statusAgree xErrDet.status (some 400) = true := by decide
+example : populateX xErrDet = some ⟨expected exErrDet, some 400, [2, 13]⟩ := by decide
+-- kept, not merged: the same case with a weaker given expectation (no details) stores that one — and fails
+example : populateX ⟨{ exErrDet with explicit := some ⟨[], [], [], some ⟨9, none, []⟩⟩ }, none, []⟩
+      = some ⟨⟨[], [], [], some ⟨9, none, []⟩⟩, none, []⟩ ∧
+    agreeX .unary ⟨⟨[], [], [], some ⟨9, none, []⟩⟩, none, []⟩ (actual exErrDet (idWire exErrDet) false) none = false := by decide
+-- derived: no status, other codes beside it, agrees whatever the client reports
+example : populateX ⟨exErrDet, none, [1]⟩ = some ⟨expected exErrDet, none, [1]⟩ ∧
+    agreeX .unary ⟨expected exErrDet, none, [1]⟩ (actual exErrDet (idWire exErrDet) true) (some 409) = true := by decide
+-- a wrong code passes only through the other allowed codes; a wrong status fails
+example : let wrong : Result := { expected exErrDet with err := (expected exErrDet).err.map (fun e => { e with code := 2 }) }
+    agreeX .unary ⟨wrong, none, []⟩ (actual exErrDet (idWire exErrDet) false) none = false ∧
+    agreeX .unary ⟨wrong, none, [13, 9]⟩ (actual exErrDet (idWire exErrDet) false) none = true ∧
+    agreeX .unary ⟨wrong, some 409, [13, 9]⟩ (actual exErrDet (idWire exErrDet) false) (some 409) = true ∧
+    agreeX .unary ⟨wrong, some 400, [13, 9]⟩ (actual exErrDet (idWire exErrDet) false) (some 409) = false := by decide
+
+/-! ## The error of a derived expectation is the definition's, verbatim -/
+
+/-- the derived expectation's error is the definition's error: code and message verbatim — whatever
+bytes the message is made of, the generator never looks inside — and details extended at the end only -/
+theorem expectedUnary_error_verbatim (tc : TC) (ex : Err) (h : (expectedUnary tc).err = some ex) :
+    ∃ d e, tc.udef = some d ∧ d.resp = .error e ∧ ex.code = e.code ∧ ex.msg = e.msg ∧ e.details <+: ex.details := by
+  unfold expectedUnary at h
+  by_cases hr : tc.reqs.isEmpty = true
+  · simp [hr] at h
+  · simp only [hr] at h
+    cases hu : tc.udef with
+    | none => simp [hu] at h
+    | some d =>
+      simp only [hu] at h
+      cases hresp : d.resp with
+      | none => simp [hresp] at h
+      | data b => simp [hresp] at h
+      | error e =>
+        refine ⟨d, e, rfl, hresp, ?_⟩
+        simp [hresp] at h
+        subst h
+        exact ⟨rfl, rfl, by simp [Err.addDetail]⟩
+
+theorem expectedStream_error_verbatim (tc : TC) (ex : Err) (h : (expectedStream tc).err = some ex) :
+    ∃ d e, tc.sdef = some d ∧ d.err = some e ∧ ex.code = e.code ∧ ex.msg = e.msg ∧ e.details <+: ex.details := by
+  unfold expectedStream at h
+  by_cases hr : tc.reqs.isEmpty = true
+  · simp [hr] at h
+  · simp only [hr] at h
+    cases hs : tc.sdef with
+    | none => simp [hs] at h
+    | some d =>
+      simp only [hs] at h
+      cases he : d.err with
+      | none => simp [he] at h
+      | some e =>
+        refine ⟨d, e, rfl, he, ?_⟩
+        by_cases hd : d.data.isEmpty = true
+        · simp [he, hd] at h
+          subst h
+          exact ⟨rfl, rfl, by simp [Err.addDetail]⟩
+        · simp [he, hd] at h
+          subst h
+          exact ⟨rfl, rfl, List.prefix_refl _⟩
+
+theorem expected_error_verbatim (tc : TC) (ex : Err) (h : (expected tc).err = some ex) :
+    (∃ d e, tc.udef = some d ∧ d.resp = .error e ∧ ex.code = e.code ∧ ex.msg = e.msg ∧ e.details <+: ex.details) ∨
+    (∃ d e, tc.sdef = some d ∧ d.err = some e ∧ ex.code = e.code ∧ ex.msg = e.msg ∧ e.details <+: ex.details) := by
+  unfold expected at h
+  cases hst : tc.st <;> simp only [hst] at h
+  · exact Or.inl (expectedUnary_error_verbatim tc ex h)
+  · exact Or.inl (expectedUnary_error_verbatim tc ex h)
+  · exact Or.inr (expectedStream_error_verbatim tc ex h)
+  · exact Or.inr (expectedStream_error_verbatim tc ex h)
+  · exact Or.inr (expectedStream_error_verbatim tc ex h)
+
+-- a message of every byte class goes through verbatim
+example : ((expected { exErrDet with udef := some ⟨[⟨"H", ["1"]⟩], [], .error ⟨9, some "\t%\n 100%\x7f\x00é☃", []⟩⟩ }).err.map (·.msg))
+    = some (some "\t%\n 100%\x7f\x00é☃") := by decide
+
+/-! ## C02 ∘ C19: the fits / misfit abstraction of `expandRequestData` is C19's arithmetic
+
+`dirOf` maps a directive of C19's model to the three values C02's load model distinguishes. -/
+section ExpandCompose
+open ConfModel ConfModel.EchoLoad
+
+/-- the `any`-clause of `expandCheck` is clean exactly when C19's loop over the messages succeeds
+(messages that all carry a `request_data` field) -/
+theorem expandMsgs_iff_no_misfit (limit : Nat) (ds : List Expand.Directive) :
+    ∀ ms : List EchoLoad.Msg, ms.length = ds.length → (∀ m ∈ ms, m.hasData = true) →
+    (((ds.map (dirOf limit)).zip ms).any (fun dm => dm.1 == .misfit || (dm.1 == .fits && !dm.2.hasData)) = false ↔
+      (Expand.expandMsgs limit ds).isSome = true) := by
+  induction ds with
+  | nil => intro ms _ _; simp [Expand.expandMsgs]
+  | cons d ds ih =>
+    intro ms hl hd
+    cases ms with
+    | nil => simp at hl
+    | cons m ms =>
+      have hm : m.hasData = true := hd m (by simp)
+      have ih' := ih ms (by simpa using hl) (fun x hx => hd x (by simp [hx]))
+      simp only [List.map_cons, List.zip_cons_cons, List.any_cons, Bool.or_eq_false_iff]
+      unfold Expand.expandMsgs
+      cases hoff : d.off with
+      | none =>
+        simp only [dirOf, hoff, Option.isSome_map]
+        rw [← ih']; simp
+      | some off =>
+        simp only [dirOf, hoff]
+        cases hres : Expand.expand limit d.r d.l0 off <;>
+          simp only [Expand.Out.isOk, if_true, if_false, Bool.false_eq_true, Option.isSome_map] <;>
+          first
+            | (rw [← ih']; simp [hm])
+            | simp
+
+/-- `EchoLoad.expandCheck` (C02) accepts a case exactly when `Expand.expandCase` (C19) pads every
+message: the abstraction to fits / misfit loses nothing the load verdict depends on -/
+theorem expandCheck_iff_expandCase (limit : Nat) (c : EchoLoad.Case) (ds : List Expand.Directive)
+    (hx : c.expand = ds.map (dirOf limit)) (hl : c.msgs.length = ds.length)
+    (hd : ∀ m ∈ c.msgs, m.hasData = true) :
+    EchoLoad.expandCheck c = none ↔ (Expand.expandCase limit ⟨ds.length, ds⟩).isSome = true := by
+  have hlen : ¬ c.expand.length > c.msgs.length := by rw [hx, List.length_map, hl]; exact Nat.lt_irrefl _
+  have hnot : (⟨ds.length, ds⟩ : Expand.SuiteCase).tooMany = false := by simp [Expand.SuiteCase.tooMany]
+  unfold EchoLoad.expandCheck Expand.expandCase
+  rw [if_neg hlen, hnot]
+  simp only [Bool.false_eq_true, if_false]
+  rw [← expandMsgs_iff_no_misfit limit ds c.msgs hl hd, hx]
+  cases h : ((ds.map (dirOf limit)).zip c.msgs).any (fun dm => dm.1 == .misfit || (dm.1 == .fits && !dm.2.hasData)) <;> simp
+
+-- non-vacuity: a message with 10 other bytes and no data padded to limit+5 fits; to limit-300000 it does not
+example : dirOf 204800 ⟨10, 0, some 5⟩ = .fits ∧ dirOf 204800 ⟨10, 0, some (-300000)⟩ = .misfit ∧ dirOf 204800 ⟨10, 0, none⟩ = .absent := by decide
+end ExpandCompose
 
 end ConfModel.Props.C02
